@@ -307,7 +307,7 @@ Proof.
   { rewrite (num_sections_ok img s Hwf). cbn [bind ef_core exp_file].
     rewrite dynseg_scan_ok; [reflexivity|].
     intros i Hi. apply range_in in Hi. unfold loop_bound in Hi. pose proof sections_fit.
-    change (stream_len C) with (zlen img) in Hi. lia. }
+    rewrite (stream_len_eq C) in Hi; change (c_img C) with img in Hi. lia. }
   destruct (String.eqb_spec t "PT_NOTE") as [->|N3]; [reflexivity|].
   unfold segment_kind_table. cbn [assoc_str].
   rewrite (proj2 (String.eqb_neq _ _) (not_eq_sym N1)), (proj2 (String.eqb_neq _ _) (not_eq_sym N2)),
@@ -330,7 +330,7 @@ Proof.
     destruct (Z.leb_spec 0 (Z.of_nat i)) as [_|E]; [|lia].
     destruct (Z.ltb_spec (Z.of_nat i) (Z.of_nat (length (i_sections s)))) as [_|E]; [|lia].
     cbn [andb]. rewrite Nat2Z.id, Hx. reflexivity.
-  - exact sections_fit.
+  - rewrite (stream_len_eq C). exact sections_fit.
   - intros i Hi. destruct (nth_sec_some s i Hi) as [x Hx]. rewrite Hx.
     apply (get_section_ok img s Hwf). exact Hx.
 Qed.
@@ -359,7 +359,7 @@ Proof.
     destruct (Z.leb_spec 0 (Z.of_nat i)) as [_|E]; [|lia].
     destruct (Z.ltb_spec (Z.of_nat i) (Z.of_nat (length (i_segments s)))) as [_|E]; [|lia].
     cbn [andb]. rewrite Nat2Z.id, Hp. reflexivity.
-  - exact segments_fit.
+  - rewrite (stream_len_eq C). exact segments_fit.
   - intros j Hj. destruct (nth_seg_some s j Hj) as [p Hp]. rewrite Hp.
     apply get_segment_ok. exact Hp.
 Qed.
